@@ -1,6 +1,7 @@
 import Gmx.Model.Glv
 import Gmx.Props.C01
 import Gmx.Gen.C45Shapes
+import Gmx.Lemmas.GlvLife
 import Mathlib.Tactic.Linarith
 import Mathlib.Tactic.Ring
 /-!
@@ -175,5 +176,101 @@ example : glvInsert ⟨1, 2, [{ token := 10 }]⟩ ⟨11, 1, 3⟩ = none := by de
 example : glvValidateBalance { token := 10, maxAmount := 100, maxValue := 5000 } 100 1000000 20000 = true := by decide
 example : glvValidateBalance { token := 10, maxAmount := 100, maxValue := 4999 } 100 1000000 20000 = false := by decide
 example : glvMint 999 10000 500 1 = some 49 ∧ glvRedeem 49 10999 549 (2000 : Int) 1000 1 = some 490 := by decide
+
+
+/-! ## GlvLife — the native GLV deposit / withdrawal life cycles (model `Gmx.GlvLife`, harness `glvlife`)
+
+Theorems over the machine that the real `gmsol_store::entry` is diffed against, for EVERY history of
+transactions (`GlvLife.run`) or every single transaction. The amounts decided by the pool maths are
+parameters of the machine; these theorems hold for all of them. -/
+section GlvLife
+open Gmx.GlvLife
+
+/-- (iii) for every history: the market-token balances RECORDED in the GLV account equal the GLV's vault
+balances, and the GLV supply `minted − burned` never underflows. -/
+theorem glvlife_recorded_eq_vault (l sh : Nat) (now : Int) (ops : List Op) :
+    (run (init l sh now) ops).1.glvRec0 = (run (init l sh now) ops).1.glvVault0 ∧
+    (run (init l sh now) ops).1.glvRec1 = (run (init l sh now) ops).1.glvVault1 ∧
+    (run (init l sh now) ops).1.glvBurned ≤ (run (init l sh now) ops).1.glvMinted := by
+  have := run_ok ops (init l sh now) ⟨rfl, rfl⟩ (Nat.le_refl _)
+  exact ⟨this.1.1, this.1.2, this.2⟩
+
+/-- only a keeper executes, only a PENDING action, and the fee is `min(fee, execution lamports)` -/
+theorem glvlife_exec_requires_pending (s s' : St) (who : Who) (slot fee x y z paid : Nat) (throw fail : Bool) (o : Outcome)
+    (h : exec s who slot fee throw fail x y z = some (s', o, paid)) :
+    ∃ act, s.acts slot = some act ∧ act.state = 0 ∧ who = .keeper ∧
+      paid = (if fee ≤ act.execLamports then fee else act.execLamports) := by
+  obtain ⟨act, h1, h2, h3, _, h5, _⟩ := exec_some h
+  exact ⟨act, h1, h2, h3, h5⟩
+
+/-- EXACTLY ONCE: after an execution (completed or cancelled) every further execution of the slot is rejected,
+whoever calls it and whatever amounts are declared -/
+theorem glvlife_exec_exactly_once (s s' : St) (who who' : Who) (slot fee fee' x y z x' y' z' paid : Nat)
+    (throw fail throw' fail' : Bool) (o : Outcome)
+    (h : exec s who slot fee throw fail x y z = some (s', o, paid)) :
+    exec s' who' slot fee' throw' fail' x' y' z' = none := by
+  obtain ⟨a, ha, hd⟩ := exec_done h
+  exact exec_none_of_done ha hd who' fee' throw' fail' x' y' z'
+
+/-- a cancelled execution changes nothing but the action's state: the whole escrow stays for `close` -/
+theorem glvlife_cancel_keeps_escrow (s s' : St) (who : Who) (slot fee x y z paid : Nat) (throw fail : Bool)
+    (h : exec s who slot fee throw fail x y z = some (s', .cancelled, paid)) :
+    ∃ act, s.acts slot = some act ∧ s' = setAct s slot (some { act with state := 2 }) ∧ throw = false := by
+  obtain ⟨act, h1, _, _, _, _, hcase⟩ := exec_some h
+  rcases hcase with ⟨_, ht, hs⟩ | ⟨ho, _⟩
+  · exact ⟨act, h1, hs, ht⟩
+  · cases ho
+
+/-- a completed GLV DEPOSIT: the collateral escrow goes to the market vaults, the escrowed market tokens plus the
+`x` freshly minted ones go to the GLV vault AND are recorded, `y` GLV tokens are minted to the escrow -/
+theorem glvlife_deposit_moves_exactly (s s' : St) (slot x y z : Nat) (act : Act) (hk : act.kind = 0)
+    (h : complete s slot act x y z = some s') :
+    s'.vaultLong = s.vaultLong + act.escLong ∧ s'.vaultShort = s.vaultShort + act.escShort ∧
+    s'.glvVault act.m = s.glvVault act.m + (act.escMt + x) ∧ s'.glvRec act.m = s.glvRec act.m + (act.escMt + x) ∧
+    s'.mtSupply act.m = s.mtSupply act.m + x ∧ s'.glvMinted = s.glvMinted + y ∧ s'.glvBurned = s.glvBurned ∧
+    s'.acts slot = some { act with state := 1, escLong := 0, escShort := 0, escMt := 0, escGlv := act.escGlv + y } := by
+  rcases complete_some h with ⟨_, rfl⟩ | ⟨hne, _⟩
+  · refine ⟨?_, ?_, ?_, ?_, ?_, ?_, ?_, acts_setAct_same _ _ _⟩ <;>
+      (by_cases hm : act.m = 0 <;> simp [setAct, glvIn, mintMt, St.glvVault, St.glvRec, St.mtSupply, hm])
+  · exact absurd hk hne
+
+/-- a completed GLV WITHDRAWAL: the escrowed GLV tokens are burned, `x` market tokens leave the GLV vault (and the
+recorded balance) and are burned, `y`/`z` long/short leave the market vaults into the escrow -/
+theorem glvlife_withdrawal_moves_exactly (s s' : St) (slot x y z : Nat) (act : Act) (hk : act.kind ≠ 0)
+    (h : complete s slot act x y z = some s') :
+    s'.vaultLong + y = s.vaultLong ∧ s'.vaultShort + z = s.vaultShort ∧
+    s'.glvVault act.m + x = s.glvVault act.m ∧ s'.glvRec act.m + x = s.glvRec act.m ∧
+    s'.mtSupply act.m + x = s.mtSupply act.m ∧ s'.glvBurned = s.glvBurned + act.escGlv ∧ s'.glvMinted = s.glvMinted ∧
+    s'.acts slot = some { act with state := 1, escGlv := 0, escLong := act.escLong + y, escShort := act.escShort + z } := by
+  rcases complete_some h with ⟨he, _⟩ | ⟨_, h1, h2, h3, h4, h5, _, rfl⟩
+  · exact absurd he hk
+  · refine ⟨?_, ?_, ?_, ?_, ?_, ?_, ?_, acts_setAct_same _ _ _⟩ <;>
+      (by_cases hm : act.m = 0 <;> simp [setAct, glvOut, burnMt, St.glvVault, St.glvRec, St.mtSupply, hm] at * <;> omega)
+
+/-- ESCROW HOME: `close` is for the owner (any state) or a keeper (completed / cancelled only); it empties the slot
+and credits the owner with exactly the escrowed long, short, market and GLV tokens; vaults, supplies and the GLV's
+recorded balances are untouched -/
+theorem glvlife_close_escrow_home (s s' : St) (who : Who) (slot : Nat) (h : close s who slot = some s') :
+    ∃ act, s.acts slot = some act ∧ (who = .user act.owner ∨ (who = .keeper ∧ act.state ≠ 0)) ∧
+      s'.acts slot = none ∧
+      (s'.users act.owner).long = (s.users act.owner).long + act.escLong ∧
+      (s'.users act.owner).short = (s.users act.owner).short + act.escShort ∧
+      (s'.users act.owner).glv = (s.users act.owner).glv + act.escGlv ∧
+      (s'.users act.owner).mt act.m = (s.users act.owner).mt act.m + act.escMt ∧
+      s'.vaultLong = s.vaultLong ∧ s'.vaultShort = s.vaultShort ∧ s'.glvVault0 = s.glvVault0 ∧ s'.glvVault1 = s.glvVault1 ∧
+      s'.glvRec0 = s.glvRec0 ∧ s'.glvRec1 = s.glvRec1 ∧ s'.glvMinted = s.glvMinted ∧ s'.glvBurned = s.glvBurned := by
+  obtain ⟨act, h1, _, h3, rfl⟩ := close_some h
+  refine ⟨act, h1, h3, acts_setAct_same _ _ _, ?_, ?_, ?_, ?_, rfl, rfl, rfl, rfl, rfl, rfl, rfl, rfl⟩ <;>
+    simp [setAct, setUser, User.mt, User.addMt] <;> (by_cases hm : act.m = 0 <;> simp [hm])
+
+/-! non-vacuity: a GLV deposit of market tokens + collateral, executed and closed, then a withdrawal -/
+example : (run (init 10000 5000 1700000000) glHist).2 =
+    [.none, .none, .created 0, .executed 0 .completed, .closed 0, .created 2, .executed 2 .completed, .closed 2] := by decide
+example : ((run (init 10000 5000 1700000000) glHist).1.glvVault0, (run (init 10000 5000 1700000000) glHist).1.glvRec0,
+    glvSupply (run (init 10000 5000 1700000000) glHist).1, ((run (init 10000 5000 1700000000) glHist).1.users 0).glv) =
+    (310, 310, 250, 250) := by decide
+example : (exec (run (init 10000 5000 1700000000) (glHist.take 4)).1 .keeper 0 0 false false 1 1 1).isNone = true := by decide
+
+end GlvLife
 
 end Gmx.C45
